@@ -224,10 +224,7 @@ func (c *converter) Panic(value string) error {
 }
 
 func (c *converter) WriteFile(path string, content string, append string) error {
-	helper := c.nextHelperVar()
-
-	c.VarAssignment(helper, fmt.Sprintf(`$(if [ "%s" -eq "%s" ]; then echo ">>"; else echo ">"; fi)`, append, transpiler.BoolToString(true)), false)
-	c.addLine(fmt.Sprintf(`eval "echo \"%s\" %s %s"`, content, c.varEvaluationString(helper, false), path))
+	c.addLine(fmt.Sprintf(`if [ "%s" -eq "%s" ]; then echo "%s" >> "%s"; else echo "%s" > "%s"; fi`, append, transpiler.BoolToString(true), content, path, content, path))
 	return nil
 }
 
